@@ -1,3 +1,12 @@
 -- GENERATED: axiom audit of the property theorems of C44
 import SquidModel.Properties.C44
-#print axioms SquidModel.C44.lastAction_nil
+#print axioms SquidModel.C44.reference_is_first_match
+#print axioms SquidModel.C44.implicit_answer
+#print axioms SquidModel.C44.firstMatch_of_rulesMatch
+#print axioms SquidModel.C44.config_decides_by_first_match
+#print axioms SquidModel.C44.interleaved_checklists_independent
+#print axioms SquidModel.C44.suspended_is_sound
+#print axioms SquidModel.C44.schedule_terminates
+#print axioms SquidModel.C44.async_eq_sync
+#print axioms SquidModel.C44.fast_eq_reference
+#print axioms SquidModel.C44.loop_limit_counterexample
